@@ -99,7 +99,8 @@ def lanePool : List String → String
 /-! ### `c09pair <kind>,<kind>,…` — sequential requests of one caller on one keep-alive host
 kinds: `NB` no body · `B` body read to EOF · `CH` chunked body read to EOF · `HD` HEAD ·
 `BX` body, caller closes early · `BK` body + `Connection: close` · `NBK` no body + close ·
-`BI` body, `CloseIdleConnections` called before the body is read to EOF.
+`BI` body, `CloseIdleConnections` called before the body is read to EOF · `E1`/`EX` POST with
+`Expect: 100-continue` answered by `100 Continue` + 200 / by a final 403 without 100 (keep-alive).
 Answer per request `<conn>:<reused>:<events>` (joined with `;`): conn = sequence number of the
 connection used, events = `R` response returned to the caller, `P` PutIdleConn(nil), `p`
 PutIdleConn(error), `E` caller saw EOF, `C` caller closed early — in observation order. -/
@@ -122,6 +123,11 @@ def pairReq (sim : PairSim) (r : Nat) (kind : String) : Option PairSim :=
     | "BK" => some (true, false, true, true)
     | "NBK" => some (false, false, true, true)
     | "BI" => some (true, true, false, true)
+    -- POST with Expect: 100-continue: the origin sends 100 Continue and then 200 (E1), or
+    -- answers 403 straight away without 100 and keeps the connection (EX): either way the body
+    -- is delivered, the response is read to EOF and the connection goes back to the pool
+    | "E1" => some (true, true, true, true)
+    | "EX" => some (true, true, true, true)
     | _ => none
   match spec with
   | none => none
